@@ -397,6 +397,8 @@ class Runner:
     rk4 = gm.info['option']['integrator'] == 'RK4'
     import time as _t
     t0 = _t.time()
+    if os.environ.get('C43_PRINT'):
+      print('  XML ' + gm.xml + ' SEEDS ' + str(list(seeds)), flush=True)
     dxb = gx.batch_data(c, states)
     if (not FINDINGS and gm.info['option']['cone'] == 'elliptic' and c.dx0._impl.nefc > 0
         and not np.any(np.asarray(c.dx0._impl.contact.dim) > 1)):
